@@ -32,7 +32,7 @@ DEFAULT = dict(
     tolerant=0.5,
     steps=(4, 14),
     tick_run=(1, 40),
-    op_weights=dict(sched=4, upd=2, unsched=1, clear=0.3, mute=0.7, unmute=0.7, nudge=0.0, max=0.0,
+    op_weights=dict(sched=4, schedat=0.6, upd=2, unsched=1, clear=0.3, mute=0.7, unmute=0.7, nudge=0.0, max=0.0,
                     defaults=0.0, swd=0.0, latency=0.0, named=0.0),
     p_quant=0.3, p_delay=0.3,
     p_count=0.2, p_keep=0.1,
@@ -252,6 +252,10 @@ class Gen:
             if not rwd:
                 self.feat.add("keep-when-done")
             self.emit("op sched %d %s %s %s %d - 1" % (sid, self.qz(), self.dl(), count, rwd))
+        elif kind == "schedat":
+            self.feat.add("track-index")
+            rwd = 0 if r.random() < p["p_keep"] else 1
+            self.emit("op schedat %d %d %s %s %s %d" % (r.randint(0, len(self.runner.tl.tracks) + 1), sid, self.qz(), self.dl(), count, rwd))
         elif kind == "named":
             self.feat.add("named")
             self.emit("op sched %d %s %s %s 1 %d %d" % (sid, self.qz(), self.dl(), count, r.randint(0, 2), r.choice([1, 1, 1, 0])))
